@@ -161,6 +161,16 @@ abbrev Table := List Entry
 
 def Table.lookup (T : Table) (s : List Char) : Option Entry := T.find? (fun e => e.sym = s)
 
+/-- a text the symbol regex `[A-Z][a-z]?` matches entirely -/
+def symOK : List Char → Bool
+  | [u] => isUp u
+  | [u, l] => isUp u && isLo l
+  | _ => false
+
+/-- every entry is served under its own symbol (`setattr(table, symbol, element)`: no two
+    entries share a symbol) -/
+def Table.wf (T : Table) : Bool := T.all fun e => decide (T.lookup e.sym = some e)
+
 /-- `symbol = Regex("[A-Z][a-z]?")` (pre-skips) with the action `table.symbol(t[0])`
     (`ValueError` for an unknown symbol: abort) -/
 def pSymbol (T : Table) (s : List Char) : Res Entry :=
@@ -196,25 +206,26 @@ def pIsotope (s : List Char) : Nat × List Char :=
     | none => (0, s)
   | _ => (0, s)
 
+/-- the optional magnitude `([1-9][0-9]*)?` of the ion regex (1 when absent), and the rest -/
+def ionMag (s : List Char) : Nat × List Char :=
+  match reWhole s with
+  | some (d, r') => (natOf d, r')
+  | none => (1, s)
+
 /-- `ion = Optional(~White() + '{' + Regex("([1-9][0-9]*)?[+-]") + '}', default='0+')`,
     action `int(t[0][-1] + (t[0][:-1] if len(t[0]) > 1 else '1'))` -/
 def pIon (s : List Char) : Int × List Char :=
   match s with
   | '{' :: r =>
-    let r1 := skipWs r
-    let mr : Nat × List Char :=
-      match reWhole r1 with
-      | some (d, r') => (natOf d, r')
-      | none => (1, r1)
-    match mr.2 with
+    match (ionMag (skipWs r)).2 with
     | sg :: r3 =>
       if sg = '+' then
         match skipWs r3 with
-        | '}' :: r4 => ((mr.1 : Int), r4)
+        | '}' :: r4 => (((ionMag (skipWs r)).1 : Int), r4)
         | _ => (0, s)
       else if sg = '-' then
         match skipWs r3 with
-        | '}' :: r4 => (-(mr.1 : Int), r4)
+        | '}' :: r4 => (-((ionMag (skipWs r)).1 : Int), r4)
         | _ => (0, s)
       else (0, s)
     | [] => (0, s)
@@ -255,6 +266,10 @@ def pElements (T : Table) : Nat → List Char → Res (Items Cnt)
     | .error .fail => .ok (.nil, s)
     | .error .abort => .error .abort
 
+def isNil : Items Cnt → Bool
+  | .nil => true
+  | .cons _ _ _ => false
+
 /-- `fragment if count == 1 else (count, fragment)` (`convert_implicit`, `convert_explicit`) -/
 def wrap (c : Cnt) (fs : Items Cnt) : Items Cnt :=
   if c.isOne then fs else .cons c (.group fs) .nil
@@ -272,8 +287,7 @@ def pImplicit (T : Table) (fuel : Nat) (s : List Char) : Res (Items Cnt) :=
   | .ok (c, r) =>
     match pElements T fuel r with
     | .error e => .error e
-    | .ok (.nil, _) => .error .fail
-    | .ok (fs, r') => .ok (wrap c fs, r')
+    | .ok (fs, r') => if isNil fs then .error .fail else .ok (wrap c fs, r')
 
 /-- separator: `(space + '+' + space) | space` -/
 def skipSep (s : List Char) : List Char :=
